@@ -17,6 +17,7 @@ DOCS = [
     '<mjml><mj-body><mj-section></mj-body></mjml>',   # 3: unparsable
     '<mjml><mj-body><mj-section nope="1"><mj-column><mj-text>v</mj-text></mj-column></mj-section></mj-body></mjml>',  # 4: validation error + HTML
 ]
+DOCS.append("\n\n\n" + DOCS[4] + "\n")   # 5: document 4 behind three blank lines: same HTML, the reported line differs
 BAD = [3]
 
 # In the "swept" configuration the TTL is not a whole number of minutes, so that no sweep ever runs at
@@ -65,9 +66,9 @@ def random_history(rng, maxlen=40):
     for _ in range(n):
         r = rng.random()
         if r < 0.5:
-            ops.append(op_render(rng.choice([0, 0, 1, 2, 3, 4]), True))
+            ops.append(op_render(rng.choice([0, 0, 1, 2, 3, 4, 4, 5, 5]), True))
         elif r < 0.6:
-            ops.append(op_render(rng.choice([0, 1, 2, 3, 4]), False))
+            ops.append(op_render(rng.choice([0, 1, 2, 3, 4, 5]), False))
         elif r < 0.8:
             ops.append(op_adv(rng.choice([1, 4, 5, 9, 10, 11, 30]) * MIN))
         elif r < 0.88:
